@@ -16,8 +16,8 @@ func init() {
 		Rule: "one case = one sequence of SetExtension/DelExtension calls from one starting state; the full oracle (ordered-map model, error-leaves-unchanged, Marshal does not panic, wire survival) runs after every step; non-trivial = at least one call returned nil",
 		Assumptions: []string{
 			"operation alphabet: Set(id,len) with id in {0,1,2,14,15,16,255} x len in {0,1,4,16,17,255,256,300} (value bytes keyed by the operation index) and Del(id) with id in {0,1,2,14,15,255}: 62 operations; all sequences up to depth 3 (quick) / 4 (thorough)",
-			"starting states: fresh header; preset one-byte; preset two-byte; preset legacy 0x1234 (no element yet); decoded from wire: one-byte with 2 elements, two-byte with 2 elements, legacy with one word",
-			"long sequences: all sequences of 6 (quick) / 7 (thorough) calls over the 8-call alphabet {Set(1,1B), Set(2,16B), Set(3,4B), Set(14,2B), Del(1), Del(2), Del(3), Del(14)} from the 7 starting states, and one fill-up run that sets all 14 one-byte ids / 40 two-byte ids and deletes every second one",
+			"starting states: fresh header; preset one-byte; preset two-byte; preset legacy 0x1234 (no element yet); decoded from wire: one-byte with 2 elements, two-byte with 2 elements, legacy with one word; reused receivers: decoded a block with extensions then a packet without / a two-byte block then a one-byte block",
+			"long sequences: all sequences of 6 (quick) / 7 (thorough) calls over the 10-call alphabet {Set(1,1B), Set(2,16B), Set(3,4B), Set(14,2B), Del(1), Del(2), Del(3), Del(14), Set(2, the same slice as the previous Set), Set(1, other content of the previous length)} from the 9 starting states, and one fill-up run that sets all 14 one-byte ids / 40 two-byte ids and deletes every second one",
 			"the model follows the library's return values (it does not decide which Set calls must be accepted); wrongly accepted values are caught by the wire-survival clause",
 		},
 		Scenarios: []mc.Scenario{
@@ -76,7 +76,7 @@ func (a c05Snap) equal(b c05Snap) bool {
 }
 
 func c05Start(c *mc.Ctx, h *rtp.Header, m *c05Model) string {
-	st := c.Pick(7)
+	st := c.Pick(9)
 	dec := func(img []byte) {
 		if _, err := h.Unmarshal(img); err != nil {
 			c.Failf("start-state", "decoding the start image %s: %v", hx(img), err)
@@ -104,10 +104,21 @@ func c05Start(c *mc.Ctx, h *rtp.Header, m *c05Model) string {
 		m.set(1, []byte{0xA1, 0xA2})
 		m.set(255, []byte{0xB1})
 		return "decoded-two-byte[1:a1a2 255:b1]"
-	default:
+	case 6:
 		dec([]byte{0x90, 0x60, 0, 1, 0, 0, 0, 2, 0, 0, 0, 3, 0x12, 0x34, 0, 1, 0xC1, 0xC2, 0xC3, 0xC4})
 		m.set(0, []byte{0xC1, 0xC2, 0xC3, 0xC4})
 		return "decoded-legacy[0:c1c2c3c4]"
+	case 7:
+		// a receiver that decoded a packet with extensions before one without
+		dec([]byte{0x90, 0x60, 0, 1, 0, 0, 0, 2, 0, 0, 0, 3, 0xBE, 0xDE, 0, 2, 0x11, 0xA1, 0xA2, 0x20, 0xB1, 0, 0, 0})
+		dec([]byte{0x80, 0x60, 0, 1, 0, 0, 0, 2, 0, 0, 0, 3})
+		return "reused:decoded-one-byte-then-no-extension"
+	default:
+		// a receiver that decoded a two-byte block before a one-byte block with one element
+		dec([]byte{0x90, 0x60, 0, 1, 0, 0, 0, 2, 0, 0, 0, 3, 0x10, 0x00, 0, 2, 0x01, 0x02, 0xA1, 0xA2, 0xFF, 0x01, 0xB1, 0})
+		dec([]byte{0x90, 0x60, 0, 1, 0, 0, 0, 2, 0, 0, 0, 3, 0xBE, 0xDE, 0, 1, 0x70, 0x55, 0, 0})
+		m.set(7, []byte{0x55})
+		return "reused:decoded-two-byte-then-one-byte[7:55]"
 	}
 }
 
@@ -234,7 +245,7 @@ type c05LongOp struct {
 	n   int
 }
 
-var c05LongOps = []c05LongOp{{true, 1, 1}, {true, 2, 16}, {true, 3, 4}, {true, 14, 2}, {false, 1, 0}, {false, 2, 0}, {false, 3, 0}, {false, 14, 0}}
+var c05LongOps = []c05LongOp{{true, 1, 1}, {true, 2, 16}, {true, 3, 4}, {true, 14, 2}, {false, 1, 0}, {false, 2, 0}, {false, 3, 0}, {false, 14, 0}, {true, 2, -1}, {true, 1, -2}}
 
 func c05Long(c *mc.Ctx) {
 	h := &rtp.Header{Version: 2, PayloadType: 96, SequenceNumber: 1, Timestamp: 2, SSRC: 3}
@@ -276,14 +287,26 @@ func c05Long(c *mc.Ctx) {
 		depth = 7
 	}
 	accepted := 0
+	var lastVal []byte
 	for step := 0; step < depth; step++ {
 		op := mc.From(c, c05LongOps)
 		before := c05Snapshot(h)
 		var err error
 		if op.set {
-			val := fill(op.n, byte(step*37)+op.id)
+			var val []byte
+			switch {
+			case op.n == -1 && lastVal != nil:
+				val = lastVal // the very slice handed to the previous Set (callers do reuse value slices)
+			case op.n == -2 && lastVal != nil:
+				val = fill(len(lastVal), byte(step*37)+0x80) // same length as the previous value, other content
+			case op.n < 0:
+				val = fill(4, byte(step))
+			default:
+				val = fill(op.n, byte(step*37)+op.id)
+			}
+			lastVal = val
 			err = h.SetExtension(op.id, val)
-			trace = append(trace, fmt.Sprintf("Set(%d,%dB)=%v", op.id, op.n, err != nil))
+			trace = append(trace, fmt.Sprintf("Set(%d,%dB%s)=%v", op.id, len(val), map[bool]string{true: " shared slice", false: ""}[op.n == -1], err != nil))
 			if err == nil {
 				m.set(op.id, clone(val))
 			}
